@@ -33,6 +33,11 @@ pub struct PropModule {
 fn module(prop: &str) -> PropModule {
     match prop {
         "C15" => c15::module(),
+        "C01" => PropModule { coq_module: "Check_Norm", runner: "Check_Norm.run_C01", generate: |r, t| libgen::generate_mixed(r, t, 320), execute: lib_stage::execute, label: libgen::label },
+        "C02" => PropModule { coq_module: "Check_Norm", runner: "Check_Norm.run_C02", generate: |r, t| libgen::generate_mixed(r, t, 320), execute: lib_stage::execute, label: libgen::label },
+        "C06" => PropModule { coq_module: "Check_Norm", runner: "Check_Norm.run_C06", generate: |r, t| libgen::generate_mixed(r, t, 320), execute: lib_stage::execute, label: libgen::label },
+        "C07" => PropModule { coq_module: "Check_Norm", runner: "Check_Norm.run_C07", generate: |r, t| libgen::generate_mixed(r, t, 320), execute: lib_stage::execute, label: libgen::label },
+        "NORM" => PropModule { coq_module: "Check_Norm", runner: "Check_Norm.run_norm_explore", generate: |r, t| libgen::generate_mixed(r, t, 400), execute: lib_stage::execute, label: libgen::label },
         "LIB" => PropModule { coq_module: "Check_Lib", runner: "Check_Lib.run_corr", generate: |r, t| libgen::generate_mixed(r, t, 200), execute: lib_stage::execute, label: libgen::label },
         _ => {
             eprintln!("unknown property {}", prop);
@@ -77,7 +82,8 @@ fn main() {
             inputs.push(serde_json::from_str(line).unwrap());
         }
     } else {
-        let corpus = PathBuf::from(env!("CARGO_MANIFEST_DIR")).join("corpus").join(format!("{}.jsonl", prop));
+        let corpus_name = match prop.as_str() { "C01" | "C02" | "C06" | "C07" | "NORM" | "LIB" => "NORM".to_string(), p => p.to_string() };
+        let corpus = PathBuf::from(env!("CARGO_MANIFEST_DIR")).join("corpus").join(format!("{}.jsonl", corpus_name));
         if let Ok(text) = fs::read_to_string(&corpus) {
             for line in text.lines() {
                 if line.trim().is_empty() { continue; }
